@@ -62,7 +62,7 @@ CREATORS = ["ChunkLoopTrans", "LoopTiling2DTrans", "HoistLoopBoundExprTrans",
 
 def plan(tier):
     if tier == "thorough":
-        return {"runs": 40000, "slice": 200, "budget_s": 2400,
+        return {"runs": 40000, "slice": 50, "budget_s": 2400,
                 "slice_timeout_s": 1200}
     return {"runs": 640, "slice": 16, "budget_s": 150,
             "slice_timeout_s": 400}
